@@ -56,9 +56,10 @@ fn helmert_common(
             if c[3] != prev_t {
                 prev_t = c[3];
                 let dt = c[3] - epoch;
-                TT[0] += dt * DT[0];
-                TT[1] += dt * DT[1];
-                TT[2] += dt * DT[2];
+                // From the reference epoch values, not accumulated from the previous tuple
+                TT[0] = T[0] + dt * DT[0];
+                TT[1] = T[1] + dt * DT[1];
+                TT[2] = T[2] + dt * DT[2];
                 if rotated {
                     let RR = [R[0] + dt * DR[0], R[1] + dt * DR[1], R[2] + dt * DR[2]];
                     ROT = rotation_matrix(&RR, exact, position_vector);
